@@ -3,6 +3,7 @@ from . import impl
 from .refprolog import Ref, Budget, Cyclic, Unspecified, canon
 from .terms import show_program, show_term, term_vars
 from .runner import watchdog, Hang
+from .budget import StepBudget, Exceeded
 
 _text_cache = {}
 
@@ -18,7 +19,7 @@ def compile_cached(text):
 def show_obs(ans):
     def st(t):
         if t[0] == 'v':
-            return '_G%d' % t[1]
+            return '_G%s' % (t[1],)
         if t[0] == 'a':
             return t[1]
         if t[0] == 'c':
@@ -46,7 +47,13 @@ class Case:
     """one differential case.  scripts: [(clauses, overwrite, shared)], facts: [(term, append)],
     queries: [goal] (observed: all variables of the goal)"""
 
-    def __init__(self, scripts, facts, queries, repeat=2, ref_steps=20000, ref_depth=60):
+    def __init__(self, scripts, facts, queries, repeat=2, ref_steps=20000, ref_depth=60, budget=False,
+                 anon=()):
+        self.budget = budget
+        # names of query variables whose value is observed with the unbound variables inside
+        # it made anonymous (sharing of unbound variables inside a findall bag is not fixed by
+        # the properties)
+        self.anon = tuple(anon)
         self.scripts = scripts
         self.facts = facts
         self.queries = queries
@@ -65,6 +72,7 @@ class Case:
                 'facts': [[_j(t), ap] for t, ap in self.facts],
                 'queries': [_j(q) for q in self.queries],
                 'repeat': self.repeat, 'ref_steps': self.ref_steps, 'ref_depth': self.ref_depth,
+                'budget': self.budget, 'anon': list(self.anon),
                 'readable': self.describe()}
 
     @staticmethod
@@ -72,7 +80,7 @@ class Case:
         return Case([(_t(sc[0]), sc[1], sc[2], sc[3]) for sc in d['scripts']],
                     [(_t(t), ap) for t, ap in d['facts']],
                     [_t(q) for q in d['queries']], d.get('repeat', 2),
-                    d.get('ref_steps', 20000), d.get('ref_depth', 60))
+                    d.get('ref_steps', 20000), d.get('ref_depth', 60), d.get('budget', False), d.get('anon', ()))
 
     def run(self):
         """-> dict(status, sig, detail, outcome, steps, nontrivial)
@@ -112,6 +120,7 @@ class Case:
         outcome = []
         steps = 0
         nontrivial = False
+        skipped_q = 0
         for rep in range(self.repeat):
             for q in self.queries:
                 obs = [('v', k) for k in term_vars(q)]
@@ -119,8 +128,15 @@ class Case:
                     ref.steps = 0
                     exp, rstatus = ref.query(q, obs)
                 except (Cyclic, Unspecified) as e:
-                    return {'status': 'skip', 'reason': type(e).__name__}
+                    # unspecified behaviour (a cyclic term would be needed, ...): this query is
+                    # out of scope, the implementation is not run on it
+                    skipped_q += 1
+                    outcome.append((type(e).__name__,))
+                    continue
                 cap = len(exp) + 1 if rstatus == 'complete' else min(len(exp), 5)
+                anon_ix = [i for i, v in enumerate(obs) if v[1] in self.anon]
+                if anon_ix:
+                    exp = [anonymize(a, anon_ix) for a in exp]
                 if rstatus != 'complete':
                     exp = exp[:cap]
                     if cap == 0:
@@ -128,11 +144,21 @@ class Case:
                         continue
                 try:
                     with watchdog():
-                        got, istatus, exc = impl.run_query(yp, q, obs, cap=cap)
+                        if self.budget:
+                            with StepBudget(2000 * ref.steps + 200000):
+                                got, istatus, exc = impl.run_query(yp, q, obs, cap=cap)
+                        else:
+                            got, istatus, exc = impl.run_query(yp, q, obs, cap=cap)
+                except Exceeded as e:
+                    return self._viol('query:nontermination',
+                                      'query %s: %s although the reference search needs only %d steps (%s); '
+                                      'reference answers: %s' % (show_term(q), e, ref.steps, rstatus, show_answers(exp)))
                 except Hang as e:
                     return self._viol('query:hang', '%s: %s; reference answers: %s'
                                       % (show_term(q), e, show_answers(exp)))
                 steps += len(got) + 1
+                if anon_ix:
+                    got = [anonymize(a, anon_ix) for a in got]
                 if istatus == 'exception':
                     return self._viol('query:' + impl.exc_sig(exc),
                                       'query %s (run %d) raised %r after %d answer(s); reference: %s %s'
@@ -145,7 +171,10 @@ class Case:
                 if exp:
                     nontrivial = True
                 outcome.append((rstatus, tuple(exp)))
-        return {'status': 'ok', 'outcome': tuple(outcome), 'steps': steps, 'nontrivial': nontrivial}
+        if skipped_q == len(self.queries) * self.repeat:
+            return {'status': 'skip', 'reason': 'unspecified (cyclic term / unbound goal)'}
+        return {'status': 'ok', 'outcome': tuple(outcome), 'steps': steps, 'nontrivial': nontrivial,
+                'skipped_queries': skipped_q, 'queries': len(self.queries) * self.repeat - skipped_q}
 
     def _viol(self, sig, detail):
         d = self.describe()
@@ -154,6 +183,16 @@ class Case:
         if d['facts']:
             txt += '--- dynamic facts: %s\n' % ', '.join(f['fact'] for f in d['facts'])
         return {'status': 'violation', 'sig': sig, 'detail': txt + detail}
+
+
+def anonymize(ans, positions):
+    def an(t):
+        if t[0] == 'v':
+            return ('v', '_')
+        if t[0] == 'f':
+            return ('f', t[1], tuple(an(a) for a in t[2]))
+        return t
+    return tuple(an(t) if i in positions else t for i, t in enumerate(ans))
 
 
 def _j(x):
@@ -183,6 +222,9 @@ def account(acc, index, case, res, key=None):
         acc.violation(res['sig'], index, case.to_json(), res['detail'], key=key)
         return
     acc.n['transitions'] += res['steps']
+    acc.n['queries_compared'] += res.get('queries', 0)
+    if res.get('skipped_queries'):
+        acc.skipped['query needing a cyclic term'] += res['skipped_queries']
     if res['nontrivial']:
         acc.n['nontrivial'] += 1
     acc.outcome(res['outcome'])
